@@ -343,6 +343,69 @@ theorem scan_panic_iff {F : Type} (att : Attempt F) (buf : Bytes) :
   · rintro ⟨d, h1, h2, h3, h4⟩
     rw [scan_first att buf d h1 h2 h3 (by rw [h4]; exact Res.not_isErr_panic), h4]; rfl
 
+theorem Attempt.place_isErr {F : Type} (d : Nat) (r : Res (Option (F × Nat))) :
+    (Attempt.place d r).isErr = r.isErr := by
+  cases r with
+  | ok a =>
+    cases a with
+    | none => rfl
+    | some p => cases p; rfl
+  | panic => rfl
+  | err e => rfl
+
+/-- clause 3 as an equivalence: the scan is an error **exactly** when the buffer is empty, or it has at
+least 257 bytes and all of the first 256 offsets are rejected -/
+theorem scan_isErr_iff {F : Type} (att : Attempt F) (buf : Bytes) :
+    (scan att buf).isErr = true ↔
+      buf = [] ∨ (257 ≤ buf.length ∧ ∀ d, d < 256 → (att (buf.drop d)).isErr = true) := by
+  constructor
+  · intro h
+    by_cases hb : buf = []
+    · exact Or.inl hb
+    right
+    rcases scan_spec att buf hb with ⟨d, _, _, _, h4, h5⟩ | ⟨h1, ⟨hl, _⟩ | ⟨_, hs⟩⟩
+    · rw [h5, Attempt.place_isErr] at h; exact absurd h h4
+    · exact ⟨hl, fun d hd => h1 d (by omega) (by omega)⟩
+    · rw [hs] at h; exact absurd h (Res.not_isErr_ok _)
+  · rintro (hb | ⟨hl, herr⟩)
+    · subst hb; rfl
+    · exact scan_gives_up att buf hl herr
+
+/-! ### The loop as a search -/
+
+/-- non-recursive reference scanner: search the offsets `0 .. min (buf.length - 2) 255` for the first
+attempt that is not an error -/
+def scanRef {F : Type} (att : Attempt F) (buf : Bytes) : Res (Option (F × Loc)) :=
+  if buf = [] then .err .bufferSize else
+  match (List.range (min (buf.length - 1) 256)).find? (fun d => !(att (buf.drop d)).isErr) with
+  | some d => Attempt.place d (att (buf.drop d))
+  | none => if 257 ≤ buf.length then Attempt.place 255 (att (buf.drop 255)) else .ok none
+
+/-- `scan_spec` as an equation: the loop computes the reference scanner, on every buffer -/
+theorem scan_eq_scanRef {F : Type} (att : Attempt F) (buf : Bytes) : scan att buf = scanRef att buf := by
+  unfold scanRef
+  by_cases hb : buf = []
+  · subst hb; rfl
+  rw [if_neg hb]
+  rcases scan_spec att buf hb with ⟨d, h1, h2, h3, h4, h5⟩ | ⟨h1, h2⟩
+  · have hf : (List.range (min (buf.length - 1) 256)).find? (fun d => !(att (buf.drop d)).isErr) = some d := by
+      rw [List.find?_range_eq_some]
+      refine ⟨?_, ?_, ?_⟩
+      · simpa using h4
+      · rw [List.mem_range]; omega
+      · intro j hj; simpa using h3 j hj
+    rw [hf]; exact h5
+  · have hf : (List.range (min (buf.length - 1) 256)).find? (fun d => !(att (buf.drop d)).isErr) = none := by
+      rw [List.find?_range_eq_none]
+      intro i hi
+      simpa using h1 i (by omega) (by omega)
+    rw [hf]
+    rcases h2 with ⟨hl, e, he, hs⟩ | ⟨hl, hs⟩
+    · simp only
+      rw [if_pos hl, he, hs]; rfl
+    · simp only
+      rw [if_neg (by omega), hs]
+
 /-! ### `mkAttempt`: predictor followed by extractor -/
 
 /-- a frame comes out of an attempt only if the predictor gave a length and the extractor a frame for
